@@ -98,6 +98,7 @@ type c01apHist struct {
 	LiveWin         int          `json:"live_win"`
 	LiveSucc        int          `json:"live_succ"`
 	SpreadMs        int          `json:"spread_ms"`
+	RecentSenders   int          `json:"recent_senders"` // goSendRecent goroutines; 0 = MaxConveyorDelay as in Agent.Run. 1-2 reaches the "all recent senders busy" path of sendToSenders without 24 s of slow answers
 	Phases          []c01apPhase `json:"phases"`
 }
 
@@ -621,7 +622,11 @@ func c01apStartAgent(w *c01apWorld, cacheDir string, prevLive []c01apDiskRec, fi
 	// loops of Run cannot be stopped and are not part of the property)
 	ag.recentSendersSema = semaphore.NewWeighted(ag.totalRecentSenders())
 	for _, shard := range ag.Shards {
-		for j := 0; j < data_model.MaxConveyorDelay; j++ {
+		nRecent := data_model.MaxConveyorDelay
+		if h.RecentSenders > 0 && h.RecentSenders < nRecent {
+			nRecent = h.RecentSenders
+		}
+		for j := 0; j < nRecent; j++ {
 			_ = ag.recentSendersSema.Acquire(context.Background(), 1)
 			ag.sendersWG.Add(1)
 			go shard.goSendRecent(j, &ag.sendersWG, ag.recentSendersSema, histCtx, shard.BucketsToSend)
@@ -740,9 +745,21 @@ func (w *c01apWorld) feed(inc *c01apInc, ph int, base uint32, s c01apSec) {
 	w.secs = append(w.secs, st)
 	w.bytesPut += int64(len(st.data)) + 20
 	w.mu.Unlock()
-	inc.ag.Shards[0].sendToSenders(compressedBucketData{time: st.t, data: st.data})
+	sh := inc.ag.Shards[0]
+	sh.sendToSenders(compressedBucketData{time: st.t, data: st.data})
+	sh.mu.Lock()
+	busy := false
+	for _, cbd := range sh.historicBucketsToSend {
+		if cbd.time == st.t {
+			busy = true
+		}
+	}
+	sh.mu.Unlock()
 	w.mu.Lock()
 	st.accepted = true
+	if busy && !s.AfterDisable {
+		w.classes["recent-senders-busy-path"] = true
+	}
 	w.mu.Unlock()
 }
 
@@ -1158,6 +1175,7 @@ func c01apGenHist() *rapid.Generator[c01apHist] {
 		lv := rapid.SampledFrom([][2]int{{5, 3}, {5, 3}, {2, 1}, {1, 1}, {3, 3}}).Draw(t, "liveness")
 		h.LiveWin, h.LiveSucc = lv[0], lv[1]
 		h.SpreadMs = rapid.IntRange(0, 40).Draw(t, "spread")
+		h.RecentSenders = rapid.SampledFrom([]int{0, 0, 0, 0, 0, 0, 1, 1, 2, 3}).Draw(t, "recentsenders")
 		np := 1
 		if h.DiskMode < 2 {
 			np = rapid.SampledFrom([]int{1, 2, 2, 2, 3, 3}).Draw(t, "phases")
